@@ -466,7 +466,10 @@ class Vector():
 		>>> v.dropna()
 		Vector([1, 3, 5])
 		"""
-		return Vector(tuple(elem for elem in self._underlying if elem is not None), dtype=self._dtype.with_nullable(False))
+		return Vector(
+			tuple(elem for elem in self._underlying if elem is not None),
+			dtype=self._dtype.with_nullable(False) if self._dtype is not None else None
+		)
 
 	def isna(self):
 		"""
